@@ -21,12 +21,12 @@ import casadi as ca
 
 from cyverif import fperr, ir
 from cyverif.harness import ERROR, PROVED, REFUTED, UNDECIDED, Result
-from cyverif.interval import IV, eval_iv
+from cyverif.interval import IV, dn, eval_iv, up
 from cyverif.taylor import TaylorError
 from cyecca import symbolic
 from cyecca.symbolic import SERIES, SQUARED_SERIES
 
-from .taylor_cell import entry_bounds, lie_consumers, stub_series
+from .taylor_cell import entry_bounds, lie_consumers, record_series, stub_series
 
 U = fperr.U
 EPS = 1e-3
@@ -36,6 +36,7 @@ REL_IN = 64 * U  # relative perturbation of a series argument assumed by the per
 TARGET = 1e-9
 
 _tables = {}
+_graphs = {}
 _thr = {}
 
 
@@ -54,6 +55,7 @@ def entry_table(table, key):
     # the switch threshold is read from the real graph (a changed threshold changes the analysed ranges)
     thr = float(g.payload(g.args(c)[1])) if g.op(g.args(c)[1]) == "CONST" else EPS
     _thr[ck] = thr
+    _graphs[ck] = (g, T, C)
     rows = []
 
     plain = table == "SERIES"
@@ -89,18 +91,81 @@ def entry_table(table, key):
 
 
 def coef_error(table, key, lo, hi):
-    """(max error, max magnitude) of the computed coefficient for arguments in [lo, hi] (plain table: |arg|)"""
+    """(max error, value enclosure) of the computed coefficient for arguments in [lo, hi] (plain table: |arg|)"""
     rows = entry_table(table, key)
-    e = 0.0
-    mg = None
-    for a, b, er, m, tag in rows:
-        if b < lo or a > hi:
-            continue
-        e = max(e, er)
-        mg = m if mg is None else mg.hull(m)
-    if hi > A_MAX or mg is None:
+    if hi > A_MAX:
         return math.inf, IV(-math.inf, math.inf)
+    hit = [r for r in rows if not (r[1] < lo or r[0] > hi)]
+    if not hit:
+        return math.inf, IV(-math.inf, math.inf)
+    e = max(r[2] for r in hit)
+    mg = None
+    if len(hit) <= 4:
+        # narrow argument range: enclose the value on the range itself rather than on whole table rows
+        g, T, C = _graphs[(table, key)]
+        for a, b, er, m, tag in hit:
+            x0, x1 = max(a, lo), min(b, hi)
+            for (p0, p1) in ([(x0, x1), (-x1, -x0)] if table == "SERIES" else [(x0, x1)]):
+                v = eval_iv(g, [T if tag == "T" else C], {("x", 0, 0): IV(p0, p1)})[T if tag == "T" else C]
+                mg = v if mg is None else mg.hull(v)
+    else:
+        for a, b, er, m, tag in hit:
+            mg = m if mg is None else mg.hull(m)
     return e, mg
+
+
+_tf_cache = {}
+
+
+def _tf(table, key, hi):
+    """Taylor form (in z: the entry's argument, or its square root for the squared table) of the closed-form branch,
+    valid on |z| <= r for the smallest bucket radius r >= the given argument bound"""
+    from .c06 import tf_eval, N_ORDER
+    from cyverif.taylor import TF
+    squared = table == "SQUARED_SERIES"
+    rr = math.sqrt(hi) if squared else hi
+    r = 1e-3
+    while r < rr:
+        r *= 1.3
+    ck = (table, key, r)
+    if ck not in _tf_cache:
+        entry_table(table, key)
+        g, T, C = _graphs[(table, key)]
+        try:
+            z = TF.var(N_ORDER, Fraction(r).limit_denominator(10 ** 9) + Fraction(1, 10 ** 9))
+            _tf_cache[ck] = tf_eval(g, C, z, squared)
+        except TaylorError:
+            _tf_cache[ck] = None
+    return _tf_cache[ck]
+
+
+def tf_lipschitz(table, key, lo, hi):
+    """(L, rem, V): |f(a) - f(b)| <= L |a - b| + rem and f(a) in V for arguments a, b in [lo, hi] (|.| for the plain table),
+    f the analytic function of the entry; None when the Taylor form does not converge on the range"""
+    tf = _tf(table, key, hi)
+    if tf is None:
+        return None
+    squared = table == "SQUARED_SERIES"
+    r = float(tf.r)
+    c = [float(abs(x)) * (1 + 1e-15) for x in tf.c]
+    rem = 2 * float(tf.R) * r ** (tf.N + 1) * (1 + 1e-12)
+    if squared:
+        if any(tf.c[i] != 0 for i in range(1, tf.N + 1, 2)):
+            return None
+        L = sum((i // 2) * c[i] * r ** (i - 2) for i in range(2, tf.N + 1, 2))
+        z = IV(math.sqrt(max(lo, 0.0)) * (1 - 1e-15), math.sqrt(hi) * (1 + 1e-15))
+    else:
+        L = sum(i * c[i] * r ** (i - 1) for i in range(1, tf.N + 1))
+        z = IV(lo, hi)
+    V = None
+    for zz in ([z, -z] if not squared else [z]):
+        acc = IV(0.0)
+        for x in reversed(tf.c):  # interval Horner; coefficients enclosed to 1 ulp
+            xf = float(x)
+            acc = acc * zz + IV(dn(xf), up(xf))
+        acc = acc + IV(-rem, rem)
+        V = acc if V is None else V.hull(acc)
+    return L * (1 + 1e-12), rem, V
 
 
 def coef_error_abs(table, key, hi, e_in):
@@ -157,23 +222,72 @@ def coef_error_range_abs(table, key, lo, hi, e_in):
     return e_max, (m_max if m_max is not None else IV(-math.inf, math.inf))
 
 
-def shells():
-    edges = [0.0, 0.004, 0.008, 0.012, 0.016, 0.02, 0.024, 0.028, 0.0316, 0.034, 0.038, 0.044, 0.052, 0.0633, 0.075]
-    r = 0.075
-    while r < 1.0:
-        r = min(r * 1.22, 1.0)
+R_CORE = 1e-7
+_trunc_cache = {}
+
+
+def _trunc(table, key):
+    if (table, key) not in _trunc_cache:
+        _trunc_cache[(table, key)] = entry_bounds(table, key, EPS)[0]
+    return _trunc_cache[(table, key)]
+
+
+def shell_edges(r_max):
+    edges = [0.0, R_CORE]
+    r = R_CORE
+    while r < 0.004:
+        r = min(r * 2.0, 0.004)
         edges.append(r)
-    return list(zip(edges, edges[1:]))
+    edges += [0.008, 0.012, 0.016, 0.02, 0.024, 0.028, 0.0316, 0.034, 0.038, 0.044, 0.052, 0.0633, 0.075]
+    r = 0.075
+    while r < r_max:
+        r = min(r * 1.22, r_max)
+        edges.append(r)
+    return [e for e in edges if e <= r_max]
+
+
+def regions(ndim, r_max, nsub, edges=None):
+    """boxes (list of (lo, hi) per rotation component) whose union contains the closed ball |w|_2 <= r_max:
+    the core cube [-R_CORE, R_CORE]^n and, per max-norm shell (r0, r1], the 2n slabs {w_k in +-[r0, r1], |w_j| <= r1};
+    slabs of the outer shells are cut into nsub pieces per other component, pieces entirely outside the ball are skipped"""
+    e = edges or shell_edges(r_max)
+    yield (0.0, e[1]), [(-e[1], e[1])] * ndim
+    for r0, r1 in zip(e[1:], e[2:]):
+        for k in range(ndim):
+            for sgn in (1, -1):
+                base = (r0, r1) if sgn > 0 else (-r1, -r0)
+                others = [j for j in range(ndim) if j != k]
+                if r1 <= 0.2 or not others:
+                    box = [(-r1, r1)] * ndim
+                    box[k] = base
+                    yield (r0, r1), box
+                    continue
+                cuts = [-r1 + 2 * r1 * i / nsub for i in range(nsub + 1)]
+                import itertools
+                for idx in itertools.product(range(nsub), repeat=len(others)):
+                    box = [None] * ndim
+                    box[k] = base
+                    n2 = r0 * r0
+                    for j, i in zip(others, idx):
+                        box[j] = (cuts[i], cuts[i + 1])
+                        n2 += 0.0 if cuts[i] <= 0 <= cuts[i + 1] else min(abs(cuts[i]), abs(cuts[i + 1])) ** 2
+                    if n2 > r_max * r_max * (1 + 1e-9):
+                        continue
+                    yield (r0, r1), box
 
 
 class FPJob:
-    def __init__(self, name, n_in, rot, build, other=1.0, box_fn=None):
+    r_max = 1.0
+    max_depth = 9
+    max_boxes = 200000
+
+    def __init__(self, name, n_in, rot, build, other=1.0, nsub=4):
         self.id = f"C06.fp[{name}]"
         self.name, self.n_in, self.rot, self.build = name, n_in, rot, build
-        self.other, self.box_fn = other, box_fn
+        self.other, self.nsub = other, nsub
         self.functions = [symbolic.taylor_series_near_zero]
         self.lemmas = ["A-FP standard floating-point model", "L-TAYLOR"]
-        self.assumptions = ["A-FP: IEEE doubles, round to nearest, U = 2^-53; libm sin/cos/tan/atan/pow within 1 ulp; sqrt correctly rounded"]
+        self.assumptions = ["A-FP: IEEE doubles, round to nearest, U = 2^-53; libm sin/cos/tan/atan/asin/acos/atan2/pow within 1 ulp; sqrt correctly rounded"]
 
     def run(self, seed=0):
         t0 = time.time()
@@ -181,86 +295,154 @@ class FPJob:
             w = ca.SX.sym("w", self.n_in)
             calls = []
             with stub_series(calls):
-                out = ca.vec(ca.SX(self.build(w)))
+                built = self.build(w)
+            hint_list = []
+            if isinstance(built, dict):
+                hint_list = built.get("hints", [])
+                built = built["out"]
+            out = ca.vec(ca.SX(built))
+            outs = {"out": out}
+            ins = {"w": w}
             if calls:
-                c = ca.vertcat(*[s for _, _, _, s in calls])
-                g, on, n_instr = ir.extract({"w": w, "c": c}, {"out": out, "args": ca.vertcat(*[a for _, _, a, _ in calls])})
-                arg_nodes = [row[0] for row in on["args"]]
-            else:
-                g, on, n_instr = ir.extract({"w": w}, {"out": out})
-                arg_nodes = []
+                ins["c"] = ca.vertcat(*[s for _, _, _, s in calls])
+                outs["args"] = ca.vertcat(*[a for _, _, a, _ in calls])
+            for k, (hx, alt, why) in enumerate(hint_list):
+                outs[f"hint{k}"] = ca.SX(hx)
+                if not isinstance(alt, (int, float)):
+                    outs[f"alt{k}"] = ca.SX(alt)
+            g, on, n_instr = ir.extract(ins, outs)
+            arg_nodes = [row[0] for row in on["args"]] if calls else []
             out_nodes = [row[0] for row in on["out"]]
+            guards = fperr.use_guards(g, out_nodes + arg_nodes)
+            hints = {}
+            anc = g.ancestors([n for n in out_nodes if n is not None])
+            # call sites whose coefficient does not reach any output (dead code in the real function) are not analysed
+            live = [("INPUT", (), ("c", j, 0)) in g.index and g.index[("INPUT", (), ("c", j, 0))] in anc for j in range(len(calls))]
+            if hint_list:
+                for k, (hx, alt, why) in enumerate(hint_list):
+                    hn = on[f"hint{k}"][0][0]
+                    if hn not in anc:
+                        raise TaylorError(f"hint {k} ({why}) does not name a node of the analysed graph")
+                    hints[hn] = IV(float(alt)) if isinstance(alt, (int, float)) else on[f"alt{k}"][0][0]
             a, b = self.rot
             worst = (0.0, None)
             undec = None
-            r_max = getattr(self, "r_max", 1.0)
-            for (r0, r1) in shells():
-                if r0 >= r_max:
-                    break
-                r1 = min(r1, r_max)
-                box = {("w", i, 0): (IV(-r1, r1) if a <= i < b else IV(-self.other, self.other)) for i in range(self.n_in)}
-                if self.box_fn:
-                    box.update(self.box_fn(r0, r1))
-                env_val = dict(box)
+            n_regions = 0
+            n_split = 0
+            at_switch = [False]
+            worst_switch = 0.0
+            n_switch = 0
+
+            def analyse_box(rbox, dbg=None):
+                """max error bound over the outputs on this box (inf when some output cannot be bounded)"""
+                env_val = {("w", i, 0): IV(-self.other, self.other) for i in range(self.n_in)}
+                for i in range(a, b):
+                    env_val[("w", i, 0)] = IV(*rbox[i - a])
                 env_err = {}
-                for j in range(len(calls)):
-                    env_val[("c", j, 0)] = IV(0.0)
+                memo = {}
+                at_switch[0] = False
                 # coefficient call sites in creation order: the argument of a later one may depend on earlier coefficients
                 for j, (table, key, arg, s) in enumerate(calls):
                     n = arg_nodes[j]
-                    memo = fperr.analyse(g, [n], env_val, env_err)
-                    av, earg = memo[n] if n is not None else (IV(0.0), 0.0)
+                    if not live[j]:
+                        continue
+                    if n is None:
+                        av, earg = IV(0.0), 0.0
+                    else:
+                        fperr.analyse(g, [n], env_val, env_err, memo, hints, guards)
+                        av, earg = memo[n]
                     if not math.isfinite(earg) or not av.finite():
-                        raise TaylorError(f"argument of {key} cannot be bounded on shell ({r0:.3g}, {r1:.3g})")
+                        return math.inf, -1
                     hi = av.mag() + earg
-                    lo = 0.0
-                    if r0 > 0:
-                        lo = math.inf
-                        for k in range(a, b):
-                            for sgn in (1, -1):
-                                slab = dict(env_val)
-                                slab[("w", k, 0)] = IV(r0, r1) if sgn > 0 else IV(-r1, -r0)
-                                if self.box_fn:
-                                    pass
-                                mm = fperr.analyse(g, [n], slab, env_err)
-                                lo = min(lo, max(mm[n][0].mig() - mm[n][1], 0.0))
+                    lo = max(av.mig() - earg, 0.0)
                     entry_table(table, key)
                     thr = _thr[(table, key)]
                     if lo > 0 and earg <= REL_IN * lo:
                         e, mg = coef_error(table, key, lo * (1 - 1e-9), hi * (1 + 1e-9))
                     else:
                         e, mg = coef_error_range_abs(table, key, lo, hi * (1 + 1e-9), earg)
+                        # second bound: |fl(branch)(y~) - f(y)| <= |fl(branch)(y~) - f(y~)| + |f(y~) - f(y)|, the last term
+                        # by the Lipschitz constant of the analytic function (Taylor form with rigorous remainder)
+                        lip = tf_lipschitz(table, key, lo, hi * (1 + 1e-9))
+                        if lip is not None:
+                            L, rem, V = lip
+                            e0, mg0 = coef_error(table, key, lo, hi * (1 + 1e-9))
+                            e2 = e0 + L * earg + rem
+                            if e2 < e:
+                                e = e2
+                            mlo, mhi = max(mg.lo, V.lo, mg0.lo), min(mg.hi, V.hi, mg0.hi)
+                            if mlo <= mhi:
+                                mg = IV(mlo, mhi)
+                    if lo <= thr * (1 + 1e-6) and hi >= thr * (1 - 1e-6):
+                        at_switch[0] = True  # both branches of this coefficient are selected somewhere on the box
                     if lo <= thr * (1 + 1e-6):
                         if thr > EPS * (1 + 1e-9):
                             raise TaylorError(f"{key}: switch threshold {thr} above the cell of the truncation lemma")
-                        e += entry_bounds(table, key, EPS)[0]  # truncation of the Taylor branch (lemma proved on |arg| < 1e-3)
+                        e += _trunc(table, key)  # truncation of the Taylor branch (lemma proved on |arg| < 1e-3)
                     env_val[("c", j, 0)] = IV(mg.lo - e, mg.hi + e) if math.isfinite(e) else mg
                     env_err[("c", j, 0)] = e
-                memo = fperr.analyse(g, out_nodes, env_val, env_err)
+                fperr.analyse(g, out_nodes, env_val, env_err, memo, hints, guards)
+                if dbg is not None:
+                    dbg(g, memo, env_val, env_err, calls, out_nodes)
+                best = (0.0, -1)
                 for i, n in enumerate(out_nodes):
                     if n is None:
                         continue
                     e = memo[n][1]
                     if not math.isfinite(e):
-                        undec = (r0, r1, i)
+                        return math.inf, i
+                    if e > best[0]:
+                        best = (e, i)
+                return best
+
+            if getattr(self, "debug_box", None):
+                return analyse_box(self.debug_box, self.debug_fn)
+            for (r0, r1), rbox0 in regions(b - a, self.r_max, self.nsub):
+                stack = [(rbox0, 0)]
+                while stack:
+                    rbox, depth = stack.pop()
+                    n_regions += 1
+                    e, i = analyse_box(rbox)
+                    if e <= (TARGET / 2 if at_switch[0] else TARGET):
+                        if e > worst[0]:
+                            worst = (e, (r0, r1, i), rbox)
+                        if at_switch[0]:
+                            n_switch += 1
+                            worst_switch = max(worst_switch, e)
+                        continue
+                    # adaptive bisection of the widest rotation component (interval dependency shrinks with the box);
+                    # the core cube and the inner shells are not split below a relative width of 1/64
+                    k = max(range(len(rbox)), key=lambda j: rbox[j][1] - rbox[j][0])
+                    if depth >= self.max_depth or n_regions > self.max_boxes:
+                        if math.isfinite(e):
+                            worst = (e, (r0, r1, i), rbox)
+                        else:
+                            undec = (rbox, i)
+                        stack = []
                         break
-                    if e > worst[0]:
-                        worst = (e, (r0, r1, i))
-                if undec:
+                    n_split += 1
+                    mid = 0.5 * (rbox[k][0] + rbox[k][1])
+                    for half in ((rbox[k][0], mid), (mid, rbox[k][1])):
+                        nb = list(rbox)
+                        nb[k] = half
+                        n2 = sum(0.0 if lo_ <= 0 <= hi_ else min(abs(lo_), abs(hi_)) ** 2 for lo_, hi_ in nb)
+                        if n2 > self.r_max ** 2 * (1 + 1e-9):
+                            continue
+                        stack.append((nb, depth + 1))
+                if undec or worst[0] > TARGET:
                     break
+            rm = self.r_max
             if undec:
                 return [Result(self.id, "floating-point bound", UNDECIDED, "FPERR", "", time.time() - t0,
-                               f"analysis cannot bound output {undec[2]} on shell {undec[:2]} (undetermined branch / divisor enclosure contains 0)")]
-            ok = worst[0] <= TARGET
-            rm = getattr(self, "r_max", 1.0)
-            if not ok:
+                               f"analysis cannot bound output {undec[1]} on region {undec[0]} (divisor enclosure contains 0 / unsupported operation)")]
+            if worst[0] > TARGET:
                 # an over-approximate bound above the target decides nothing by itself (the bounded sweeps look for real violations)
                 return [Result(self.id, "floating-point bound", UNDECIDED, "FPERR", "", time.time() - t0,
-                               f"rigorous bound {worst[0]:.3e} exceeds 1e-9 on shell {worst[1][:2] if worst[1] else None}: not a refutation (over-approximation)")]
-            return [Result(self.id, f"{self.name}: |double-precision value - exact value| <= 1e-9 for all rotation components in [-{rm}, {rm}] (covers rotation magnitudes 0..{rm} rad and both sides of every switch), other inputs in [-1, 1]",
-                           PROVED if ok else REFUTED, "FPERR", "", time.time() - t0,
-                           f"rigorous bound {worst[0]:.3e} (worst shell rho in {worst[1][:2] if worst[1] else None}); {len(calls)} coefficient call sites, {len(shells())} shells, {n_instr} instructions",
-                           None if ok else {"inputs": {"bound": worst[0], "shell": worst[1]}}, len(out_nodes))]
+                               f"rigorous bound {worst[0]:.3e} exceeds 1e-9 on box {[(round(x, 6), round(y, 6)) for x, y in worst[2]] if worst[1] else None}: not a refutation (over-approximation)")]
+            return [Result(self.id, f"{self.name}: |double-precision value - exact value| <= 1e-9 for every rotation vector of magnitude <= {rm} rad, and <= 5e-10 on every box where a coefficient can take either branch (so the jump across a switch is <= 1e-9); other inputs in [-1, 1]",
+                           PROVED, "FPERR", "", time.time() - t0,
+                           f"rigorous bound {worst[0]:.3e} (worst shell rho in {worst[1][:2] if worst[1] else None}), {worst_switch:.3e} on the {n_switch} boxes containing a switch; {sum(live)} live coefficient call sites, {n_regions} boxes covering the ball ({n_split} adaptive bisections), {n_instr} instructions",
+                           None, len(out_nodes))]
         except TaylorError as e:
             return [Result(self.id, "floating-point bound", UNDECIDED, "FPERR", "", time.time() - t0, str(e))]
         except Exception as e:
@@ -276,35 +458,178 @@ FP_CONSUMERS = ["so3.left_jacobian", "so3.left_jacobian_inv", "so3.right_jacobia
                 "se23.left_jacobian", "se23.right_jacobian", "se23.left_jacobian_inv", "SE2.exp", "SE3Quat.Ad(exp)"]
 
 
+HINT_UNIT = "C06.hint.unit-quaternion[<group>.exp]: norm_2 of the quaternion returned by exp = 1 (discharged by ALG on the closed-form cell)"
+
+
+def _with_unit_hint(X, quat, out):
+    """the quaternion logarithm renormalises its argument; on the image of exp the norm is exactly 1 in real arithmetic
+    (obligation C06.hint.unit-quaternion), which removes the interval dependency of q0 / |q| next to acos's singular point"""
+    return {"out": out(X), "hints": [(ca.norm_2(quat(X)), 1.0, HINT_UNIT)]}
+
+
 def extra_consumers():
     """logs (composed with exp so that the input is a free rotation vector) and series-free conversions"""
     from cyecca.lie.group_so3 import so3, SO3Quat, SO3Mrp, SO3Dcm, SO3EulerB321
     from cyecca.lie.group_se3 import se3, SE3Quat, SE3Mrp
+    from cyecca.lie.group_se23 import se23, SE23Quat, SE23Mrp
     from cyecca.lie.group_se2 import se2, SE2
     E = {
         "SO3Mrp.log": (3, (0, 3), lambda r: SO3Mrp.elem(r).log().param, 0.26),  # |r| = tan(theta/4) <= 0.26 for theta <= 1
         "SO3Mrp.log(exp)": (3, (0, 3), lambda w: so3.elem(w).exp(SO3Mrp).log().param, 1.0),
-        "SE3Mrp.log(exp)": (6, (3, 6), lambda w: se3.elem(w).exp(SE3Mrp).log().param, 0.55),
+        "SO3Quat.log(exp)": (3, (0, 3), lambda w: _with_unit_hint(so3.elem(w).exp(SO3Quat), lambda X: X.param, lambda X: X.log().param), 1.0),
+        "SO3Dcm.log(exp)": (3, (0, 3), lambda w: so3.elem(w).exp(SO3Dcm).log().param, 1.0),
+        "SE3Mrp.log(exp)": (6, (3, 6), lambda w: se3.elem(w).exp(SE3Mrp).log().param, 1.0),
+        "SE3Quat.log(exp)": (6, (3, 6), lambda w: _with_unit_hint(se3.elem(w).exp(SE3Quat), lambda X: X.param[3:7], lambda X: X.log().param), 1.0),
+        "SE23Quat.log(exp)": (9, (6, 9), lambda w: _with_unit_hint(se23.elem(w).exp(SE23Quat), lambda X: X.param[6:10], lambda X: X.log().param), 1.0),
+        "SE23Mrp.log(exp)": (9, (6, 9), lambda w: se23.elem(w).exp(SE23Mrp).log().param, 1.0),
+        "SE23Quat.exp": (9, (6, 9), lambda w: se23.elem(w).exp(SE23Quat).to_Matrix(), 1.0),
+        "SE23Mrp.exp": (9, (6, 9), lambda w: se23.elem(w).exp(SE23Mrp).to_Matrix(), 1.0),
         "SE2.log(exp)": (3, (2, 3), lambda w: se2.elem(w).exp(SE2).log().param, 1.0),
         "conv Quat.from_Mrp": (3, (0, 3), lambda r: SO3Quat.from_Mrp(SO3Mrp.elem(r)).param, 0.26),
         "conv Dcm.from_Mrp": (3, (0, 3), lambda r: SO3Dcm.from_Mrp(SO3Mrp.elem(r)).param, 0.26),
         "conv Mrp.from_Quat(exp)": (3, (0, 3), lambda w: SO3Mrp.from_Quat(so3.elem(w).exp(SO3Quat)).param, 1.0),
         "conv Dcm.from_Quat(exp)": (3, (0, 3), lambda w: SO3Dcm.from_Quat(so3.elem(w).exp(SO3Quat)).param, 1.0),
-        "conv Quat.from_Dcm(exp)": (3, (0, 3), lambda w: SO3Quat.from_Dcm(so3.elem(w).exp(SO3Dcm)).param, 0.55),
-        "conv Mrp.from_Dcm(exp)": (3, (0, 3), lambda w: SO3Mrp.from_Dcm(so3.elem(w).exp(SO3Dcm)).param, 0.55),
-        "conv Euler.from_Quat(exp)": (3, (0, 3), lambda w: SO3EulerB321.from_Quat(so3.elem(w).exp(SO3Quat)).param, 0.55),
+        "conv Quat.from_Dcm(exp)": (3, (0, 3), lambda w: SO3Quat.from_Dcm(so3.elem(w).exp(SO3Dcm)).param, 1.0),
+        "conv Mrp.from_Dcm(exp)": (3, (0, 3), lambda w: SO3Mrp.from_Dcm(so3.elem(w).exp(SO3Dcm)).param, 1.0),
+        "conv Euler.from_Quat(exp)": (3, (0, 3), lambda w: SO3EulerB321.from_Quat(so3.elem(w).exp(SO3Quat)).param, 1.0),
+        "conv Euler.from_Dcm(exp)": (3, (0, 3), lambda w: SO3EulerB321.from_Dcm(so3.elem(w).exp(SO3Dcm)).param, 1.0),
+        "conv Euler.from_Mrp(exp)": (3, (0, 3), lambda w: SO3EulerB321.from_Mrp(so3.elem(w).exp(SO3Mrp)).param, 1.0),
     }
     return E
 
 
 class FPJobR(FPJob):
-    """same analysis with the shells cut at a maximal rotation-component radius r_max (interval dependency makes some
-    branch tests undecidable on the corners of larger boxes; r_max = 0.55 still contains every rotation up to 0.55 rad per
-    axis, i.e. the ball of 0.55 rad; stated in the obligation)"""
+    """same analysis on the ball of radius r_max (stated in the obligation)"""
 
     def __init__(self, name, n_in, rot, build, r_max):
         super().__init__(name, n_in, rot, build)
         self.r_max = r_max
+
+
+class JacFiniteJob:
+    """third clause of C06: the CasADi AD Jacobian (w.r.t. every input) of a consumer, evaluated in doubles, is finite at and
+    around zero rotation.  The Jacobian graph of the REAL function (series not stubbed: both branches of every if_else and
+    their derivatives are in the graph) is analysed with the same floating-point model on boxes covering the ball of 1 rad:
+    a finite value enclosure and a finite error bound imply a finite double result (no inf, no NaN: every division has a
+    divisor enclosure away from 0, every sqrt / acos / asin argument stays in its domain, guarded values are masked by
+    if_else_zero).  skip_core: the box |w_rot|_inf <= 1e-7 is left out for the acos-based logarithms, whose Jacobian at
+    the identity is the recorded known finding (NaN at zero and wherever cos(theta/2) or the trace rounds to its value at the
+    identity, theta < ~2e-8; the analysis needs 1e-6 for the quaternion logarithms, 1e-7 for the DCM logarithm)."""
+
+    EDGES = [0.0, R_CORE, 1e-6, 1e-5, 1e-4, 4e-4, 8e-4, 1.2e-3, 2e-3, 4e-3, 8e-3, 0.016, 0.025, 0.0316, 0.04, 0.055, 0.0633, 0.08, 0.12, 0.2, 0.35, 0.6, 1.0]
+
+    def __init__(self, name, n_in, rot, build, skip_core=False, r_max=1.0):
+        self.id = f"C06.jac-finite[{name}]"
+        self.name, self.n_in, self.rot, self.build, self.skip_core, self.r_max = name, n_in, rot, build, skip_core, r_max
+        self.functions = [symbolic.taylor_series_near_zero]
+        self.lemmas = ["A-FP standard floating-point model", "L-NORMALIZE"]
+        self.assumptions = FPJob("x", 1, (0, 1), None).assumptions + ["CasADi forward/reverse AD produces the graph that is evaluated (trusted; cyecca relies on it)"]
+
+    def run(self, seed=0):
+        t0 = time.time()
+        try:
+            w = ca.SX.sym("w", self.n_in)
+            calls = []
+            with record_series(calls):
+                built = self.build(w)
+            hint_list = []
+            if isinstance(built, dict):
+                hint_list = built.get("hints", [])
+                built = built["out"]
+            out = ca.vec(ca.SX(built))
+            Jm = ca.jacobian(out, w)
+            outs = {"J": ca.vec(ca.SX(Jm)), "out": out}
+            for k, (hx, alt, why) in enumerate(hint_list):
+                outs[f"hint{k}"] = ca.SX(hx)
+            if calls:
+                outs["cargs"] = ca.vertcat(*[a_ for _, _, a_, _ in calls])
+                outs["cres"] = ca.vertcat(*[r_ for _, _, _, r_ in calls])
+            g, on, n_instr = ir.extract({"w": w}, outs)
+            roots = [row[0] for row in on["J"] if row[0] is not None] + [row[0] for row in on["out"] if row[0] is not None]
+            guards = fperr.use_guards(g, roots)
+            anc = g.ancestors(roots)
+            hints = {}
+            for k, (hx, alt, why) in enumerate(hint_list):
+                hn = on[f"hint{k}"][0][0]
+                if hn not in anc:
+                    raise TaylorError(f"hint {k} ({why}) does not name a node of the analysed graph")
+                hints[hn] = IV(float(alt))
+            # real value of a series call = the analytic function of its key at the (real) argument, up to the truncation
+            # lemma on the Taylor side: enclosure from the Taylor form (no interval dependency of the closed form)
+            for j, (table, key, _, _) in enumerate(calls):
+                an, rn = on["cargs"][j][0], on["cres"][j][0]
+                if rn is None or rn not in anc or an is None:
+                    continue
+
+                def series_value(ev, table=table, key=key, an=an):
+                    A, ea = ev(an)
+                    if not (A.finite() and math.isfinite(ea)):
+                        return None
+                    lo_, hi_ = (max(A.lo, 0.0), max(A.hi, 0.0)) if table == "SQUARED_SERIES" else (A.mig(), A.mag())
+                    try:
+                        entry_table(table, key)
+                        if _thr[(table, key)] > EPS * (1 + 1e-9):
+                            return None  # the truncation lemma covers the polynomial on |arg| < 1e-3 only
+                        lip = tf_lipschitz(table, key, lo_, hi_ * (1 + 1e-9))
+                        t = _trunc(table, key)
+                    except TaylorError:
+                        return None
+                    if lip is None:
+                        return None
+                    return IV(lip[2].lo - t, lip[2].hi + t)
+
+                hints[rn] = series_value
+            a, b = self.rot
+            n_boxes = 0
+            rm = self.r_max
+            for (r0, r1), rbox0 in regions(b - a, rm, 1, [e_ for e_ in self.EDGES if e_ < rm] + [rm]):
+                if self.skip_core and r1 <= self.skip_core * (1 + 1e-9):
+                    continue
+                stack = [(rbox0, 0)]
+                while stack:
+                    rbox, depth = stack.pop()
+                    n_boxes += 1
+                    env_val = {("w", i, 0): IV(-1.0, 1.0) for i in range(self.n_in)}
+                    for i in range(a, b):
+                        env_val[("w", i, 0)] = IV(*rbox[i - a])
+                    memo = fperr.analyse(g, roots, env_val, {}, None, hints, guards)
+                    bad = [n for n in roots if not (memo[n][0].finite() and math.isfinite(memo[n][1]))]
+                    if not bad:
+                        continue
+                    if depth >= 8 or n_boxes > 20000:
+                        return [Result(self.id, "AD Jacobian finite around zero", UNDECIDED, "FPERR", "", time.time() - t0,
+                                       f"cannot bound {len(bad)} Jacobian/value entries on box {[(round(x, 9), round(y, 9)) for x, y in rbox]} (divisor enclosure contains 0 or an argument may leave its domain)")]
+                    k = max(range(len(rbox)), key=lambda j: rbox[j][1] - rbox[j][0])
+                    mid = 0.5 * (rbox[k][0] + rbox[k][1])
+                    for half in ((rbox[k][0], mid), (mid, rbox[k][1])):
+                        nb = list(rbox)
+                        nb[k] = half
+                        n2 = sum(0.0 if lo_ <= 0 <= hi_ else min(abs(lo_), abs(hi_)) ** 2 for lo_, hi_ in nb)
+                        if n2 <= rm * rm * (1 + 1e-9):
+                            stack.append((nb, depth + 1))
+            where = f"{self.skip_core:g} <= |w_rot|_inf, |w_rot|_2 <= {rm:g} (the AD Jacobian at and next to the identity is the recorded known finding)" if self.skip_core else f"|w_rot|_2 <= {rm:g} including zero rotation"
+            return [Result(self.id, f"{self.name}: value and CasADi AD Jacobian are finite in double precision for every rotation vector with {where}, other inputs in [-1, 1]",
+                           PROVED, "FPERR", "", time.time() - t0, f"{n_boxes} boxes, {n_instr} instructions (value and Jacobian graph, both branches of every series in the graph)", None, len(roots))]
+        except TaylorError as e:
+            return [Result(self.id, "AD Jacobian finite around zero", UNDECIDED, "FPERR", "", time.time() - t0, str(e))]
+        except Exception as e:
+            return [Result(self.id, "AD Jacobian finite around zero", ERROR, "FPERR", "", time.time() - t0, f"{type(e).__name__}: {e}\n{traceback.format_exc(limit=5)}")]
+
+    def replay(self, w):
+        r = self.run()[0]
+        return r.status == REFUTED, r.detail
+
+
+NAN_AT_IDENTITY = {"SO3Quat.log(exp)": 1e-6, "SO3Dcm.log(exp)": 1e-7, "SE3Quat.log(exp)": 1e-6, "SE23Quat.log(exp)": 1e-6}
+
+
+def jac_jobs():
+    C = lie_consumers()
+    J = [JacFiniteJob(n, *C[n]) for n in FP_CONSUMERS]
+    for n, (n_in, rot, build, r_max) in extra_consumers().items():
+        if r_max == 1.0:
+            J.append(JacFiniteJob(n, n_in, rot, build, skip_core=NAN_AT_IDENTITY.get(n, False), r_max=0.8 if "Euler" in n else 1.0))
+    return J
 
 
 def jobs():
@@ -312,4 +637,4 @@ def jobs():
     J = [FPJob(n, *C[n]) for n in FP_CONSUMERS]
     for n, (n_in, rot, build, r_max) in extra_consumers().items():
         J.append(FPJobR(n, n_in, rot, build, r_max))
-    return J
+    return J + jac_jobs()
